@@ -91,6 +91,7 @@ def boot() -> None:
     _booted = True
     os.environ.setdefault("PYTHONHASHSEED", "0")
     os.environ[GUARD] = "1"
+    os.environ.setdefault("TQDM_DISABLE", "1")
     os.environ["NUMBA_CACHE_DIR"] = _ensure_numba_cache()
     if os.environ.get("VK_SHARD") is not None:
         os.environ.setdefault("NUMBA_NUM_THREADS", "1")
